@@ -98,6 +98,10 @@ def type_attr(t: TypeV, attr: str) -> Any:
     return None
 
 
+class Arr(list):
+    """a numeric array (numpy semantics for +, - with a scalar)"""
+
+
 class MaxV:
     """offset + max/min(items): items are affine symbolic numbers (absint.Lin)"""
     def __init__(self, kind: str, items: tuple, offset: Any = 0):
@@ -173,6 +177,7 @@ class Interp:
         self._pos = 0
         self.fn_stack: list[FunctionInfo] = []
         self.undecided: list[str] = []
+        self.heap: dict = {}   # (symbolic object tag, attribute) -> value
 
     # ------------------------------------------------------------------ driver
     def run(self, fn: FunctionInfo, env: dict, prelude: Optional[tuple] = None) -> list[tuple[list[Effect], Any, list[str]]]:
@@ -349,6 +354,8 @@ class Interp:
         if isinstance(t, ast.Name):
             env[t.id] = val
         elif isinstance(t, (ast.Tuple, ast.List)):
+            if isinstance(val, Obj) and len(val.fields) == len(t.elts):
+                val = list(val.fields.values())
             vals = val if isinstance(val, (list, tuple)) and len(val) == len(t.elts) else [UNKNOWN] * len(t.elts)
             for el, v in zip(t.elts, vals):
                 self.assign(el, v, env, node)
@@ -401,6 +408,8 @@ class Interp:
                 return env[e.id]
             if e.id in BUILTIN_TYPES:
                 return BUILTIN_TYPES[e.id]
+            if e.id in ("min", "max", "len", "sum", "abs", "sorted"):
+                return Sym("builtin:" + e.id)
             if e.id in ("Union", "Annotated") and self.fn_stack:
                 full = self.prog.resolve_name(self.fn_stack[-1].module, e.id)
                 if full in ("typing.Union", "typing.Annotated"):
@@ -410,6 +419,8 @@ class Interp:
             p = _path(e)
             if p is not None and p in env:
                 return env[p]
+            if isinstance(e.value, ast.Name) and e.value.id == "operator" and "operator" not in env:
+                return Sym("operator." + e.attr)
             base = self.ev(e.value, env, depth)
             if isinstance(base, Obj):
                 return base.fields.get(e.attr, UNKNOWN)
@@ -417,6 +428,8 @@ class Interp:
                 v = type_attr(base, e.attr)
                 return UNKNOWN if v is None else v
             if isinstance(base, Sym):
+                if (base.tag, e.attr) in self.heap:
+                    return self.heap[(base.tag, e.attr)]   # attribute of a symbolic object, whatever name it is reached through
                 return Sym(f"{base.tag}.{e.attr}")
             return UNKNOWN
         if isinstance(e, ast.UnaryOp) and isinstance(e.op, ast.Not):
@@ -522,6 +535,8 @@ class Interp:
             return UNKNOWN
         if isinstance(e, ast.BinOp) and isinstance(e.op, (ast.Add, ast.Sub)):
             l, r = self.ev(e.left, env, depth), self.ev(e.right, env, depth)
+            if isinstance(l, Arr) and _is_num(r) and all(_is_num(x) for x in l):
+                return Arr([x + r if isinstance(e.op, ast.Add) else x - r for x in l])
             if isinstance(l, list) and isinstance(r, list) and isinstance(e.op, ast.Add):
                 return l + r
             if _is_num(l) and _is_num(r):
@@ -542,15 +557,21 @@ class Interp:
             idx = self.ev(e.slice, env, depth) if not isinstance(e.slice, ast.Slice) else UNKNOWN
             if isinstance(base, list) and isinstance(idx, int) and not isinstance(idx, bool) and -len(base) <= idx < len(base):
                 return base[idx]
+            if isinstance(base, list) and isinstance(idx, int) and not isinstance(idx, bool) and self.strict_index \
+                    and all(x is not UNKNOWN for x in base):
+                self.trace.append(Effect("raise", f"IndexError: index {idx} of a list of length {len(base)}", node=e))
+                raise _Return(UNKNOWN)
             if isinstance(base, dict) and isinstance(idx, (str, int)):
                 return base.get(idx, UNKNOWN)
+            if isinstance(base, Obj) and isinstance(idx, int) and not isinstance(idx, bool) and 0 <= idx < len(base.fields):
+                return list(base.fields.values())[idx]
             if isinstance(base, Sym):
                 return Sym(f"{base.tag}[{norm(e.slice)[:12]}]")
             return UNKNOWN
         if isinstance(e, ast.Call):
             return self.call(e, env, depth)
         if isinstance(e, ast.Lambda):
-            return UNKNOWN
+            return LocalFn(e, env, self.fn_stack[-1] if self.fn_stack else None)
         return UNKNOWN
 
     def comp(self, e: ast.AST, env: dict, depth: int) -> Any:
@@ -590,6 +611,23 @@ class Interp:
         if nm in self.record_calls:
             recv = self.ev(c.func.value, env, depth) if isinstance(c.func, ast.Attribute) else None
             self.trace.append(Effect("call", nm, tuple(args), kwargs, node=c, fn=self.fn_stack[-1], recv=recv))
+        # a local name bound to a builtin function / an operator-module function
+        alias = env.get(c.func.id) if isinstance(c.func, ast.Name) else None
+        if isinstance(alias, Sym) and alias.tag.startswith("builtin:"):
+            fake = ast.copy_location(ast.Call(func=ast.Name(id=alias.tag[8:], ctx=ast.Load()), args=c.args, keywords=c.keywords), c)
+            saved = env.pop(c.func.id)
+            try:
+                return self.call(fake, env, depth)
+            finally:
+                env[c.func.id] = saved
+        opname = None
+        if isinstance(alias, Sym) and alias.tag.startswith("operator."):
+            opname = alias.tag[9:]
+        elif isinstance(c.func, ast.Attribute) and isinstance(c.func.value, ast.Name) and c.func.value.id == "operator":
+            opname = c.func.attr
+        if opname in ("le", "ge", "lt", "gt", "eq", "ne") and len(args) == 2 and all(_is_num(a) for a in args):
+            import operator as _op
+            return getattr(_op, opname)(args[0], args[1])
         # calling a value: a local function (closure) or a symbolic callable
         fval = None
         if isinstance(c.func, ast.Name) and isinstance(env.get(c.func.id), (LocalFn, Sym)):
@@ -627,6 +665,17 @@ class Interp:
                 return list(args[0])
             if nm == "bool" and len(args) == 1:
                 return self.truthy(args[0])
+            if nm in ("max", "min", "sorted") and len(args) == 1 and isinstance(args[0], list) and kwargs.get("key") is not None:
+                keys = [self.apply(kwargs["key"], [x], env, depth) for x in args[0]]
+                if args[0] and all(_is_num(k) for k in keys):
+                    pairs = list(zip(keys, range(len(keys))))
+                    if nm == "sorted":
+                        rev = kwargs.get("reverse") is True
+                        order = sorted(range(len(keys)), key=lambda i: keys[i], reverse=rev)
+                        return [args[0][i] for i in order]
+                    best = (max if nm == "max" else min)(range(len(keys)), key=lambda i: keys[i])
+                    return args[0][best]
+                return UNKNOWN
             if nm in ("max", "min") and args:
                 items = args[0] if len(args) == 1 and isinstance(args[0], list) else args if len(args) > 1 else None
                 if items and all(_is_num(x) for x in items):
@@ -645,6 +694,8 @@ class Interp:
                 return "id:" + args[0].tag
             if nm == "deque" and len(args) <= 1:
                 return list(args[0]) if args and isinstance(args[0], list) else [] if not args else UNKNOWN
+            if nm in ("list", "tuple") and not args and not kwargs:
+                return []
             if nm in ("set", "dict") and not args:
                 return set() if nm == "set" else {}
             if nm == "set" and len(args) == 1 and isinstance(args[0], list):
@@ -796,8 +847,29 @@ class Interp:
 
 
 def _install():
+    def apply(self, fv: Any, args: list, env: dict, depth: int) -> Any:
+        """call a callable value (closure, lambda, symbolic callable) on interpreted arguments"""
+        if isinstance(fv, LocalFn):
+            return self.call_local(fv, args, {}, depth, env)
+        if isinstance(fv, Sym) and self.sym_result is not None:
+            return self.sym_result(fv, args)
+        return UNKNOWN
+
     def call_local(self, f: LocalFn, args, kwargs, depth, caller_env=None):
         node = f.node
+        if isinstance(node, ast.Lambda):
+            a = node.args
+            params = [x.arg for x in a.posonlyargs + a.args]
+            cenv = dict(f.env)
+            if caller_env is not None:
+                for k, v in caller_env.items():
+                    if k.startswith("self."):
+                        cenv[k] = v
+            for p_, d in zip(params[len(params) - len(a.defaults):], a.defaults):
+                cenv[p_] = self.ev(d, f.env, depth)
+            for p_, v in zip(params, args):
+                cenv[p_] = v
+            return self.ev(node.body, cenv, depth + 1)
         a = node.args
         params = [x.arg for x in a.posonlyargs + a.args]
         cenv = dict(f.env)
@@ -832,10 +904,12 @@ def _install():
         return v if isinstance(v, (str, int, float, bool, tuple, type(None))) else repr(v)
 
     Interp.call_local = call_local
+    Interp.apply = apply
     Interp._hashable = _hashable
     Interp.sym_result = None
     Interp.on_start = None
     Interp.allow_recursion = False
+    Interp.strict_index = False
     Interp.prelude_len = 0
 
 
